@@ -122,45 +122,52 @@ func restoreGlobals() {
 
 // result of exploring one scenario at one bound
 type scResult struct {
-	Scenario       string         `json:"scenario"`
-	Threads        int            `json:"threads"`
-	Bound          int            `json:"bound"`
-	Unbounded      bool           `json:"unbounded,omitempty"`
-	Executions     int64          `json:"executions"`
-	MaxPoints      int            `json:"max_points"`
-	MaxSteps       int            `json:"max_steps"`
-	Outcomes       int            `json:"distinct_outcomes"`
-	Traces         int            `json:"distinct_traces"`
-	Preempted      []bool         `json:"threads_preempted_mid_operation"`
-	Complete       bool           `json:"complete"`
-	Violations     []ev.Violation `json:"violations,omitempty"`
-	Infra          []string       `json:"infra,omitempty"`
-	Seconds        float64        `json:"seconds"`
-	PrunedStates   int64          `json:"pruned_states,omitempty"`
-	PerBound       []int64        `json:"schedules_per_bound"`
-	TotalSteps     int64          `json:"total_steps"`
-	Aborted        int            `json:"bound_aborted_by_deadline,omitempty"`
-	GlobalsChanged bool           `json:"globals_changed,omitempty"`
+	Scenario        string         `json:"scenario"`
+	Threads         int            `json:"threads"`
+	Bound           int            `json:"bound"`
+	Executions      int64          `json:"executions"`
+	MaxPoints       int            `json:"max_points"`
+	MaxSteps        int            `json:"max_steps"`
+	Outcomes        int            `json:"distinct_outcomes"`
+	Traces          int            `json:"distinct_traces"`
+	Preempted       []bool         `json:"threads_preempted_mid_operation"`
+	Complete        bool           `json:"complete"`
+	Violations      []ev.Violation `json:"violations,omitempty"`
+	Infra           []string       `json:"infra,omitempty"`
+	Seconds         float64        `json:"seconds"`
+	PrunedStates    int64          `json:"pruned_states,omitempty"`
+	PerBound        []int64        `json:"schedules_per_bound"`
+	TotalSteps      int64          `json:"total_steps"`
+	Unbounded       int64          `json:"unbounded_schedules,omitempty"`
+	UnboundedDone   bool           `json:"unbounded_complete,omitempty"`
+	UnboundedStates int64          `json:"unbounded_states,omitempty"`
+	DirtyPoints     int64          `json:"points_after_observed_shared_state_change,omitempty"`
+	Aborted         int            `json:"bound_aborted_by_deadline,omitempty"`
+	GlobalsChanged  bool           `json:"globals_changed,omitempty"`
 }
 
 type explorer struct {
-	sc       scen.Scenario
-	bound    int // -1: unbounded with state pruning
-	deadline time.Time
-	want     []string
-	wantObs  string
-	res      *scResult
-	outcomes map[string]bool
-	traces   map[uint64]bool
-	visited  map[uint64]bool
-	stop     bool
-	probe    []string // results of the post-probe of the last execution
+	sc           scen.Scenario
+	bound        int // -1: unbounded with state pruning
+	deadline     time.Time
+	want         []string
+	wantObs      string
+	res          *scResult
+	outcomes     map[string]bool
+	traces       map[uint64]bool
+	visited      map[uint64]bool
+	stop         bool
+	probe        []string // results of the post-probe of the last execution
+	curEnv       *scen.Env
+	fp0          uint64
+	visitedSteps map[[4]int32]bool
 }
 
 // runOnce executes the scenario under the schedule prefix.
 func (e *explorer) runOnce(prefix []int) (*sched.Exec, []string, string) {
 	restoreGlobals()
 	env, bodies := e.sc.Setup()
+	e.curEnv = env
 	results := make([]string, len(bodies))
 	fs := make([]func(), len(bodies))
 	for i := range bodies {
@@ -270,7 +277,70 @@ func (e *explorer) check(x *sched.Exec, results []string, obs string, prefix []i
 	}
 }
 
-// explore: iterative context bounding DFS (or, bound<0, unbounded DFS with state pruning).
+// fingerprint of everything threads share: the scenario's objects and every package-level variable
+func sharedFingerprint(env *scen.Env) uint64 {
+	h := fnv.New64a()
+	h.Write([]byte(env.Dump()))
+	var b [8]byte
+	g := globalsHash()
+	for i := range b {
+		b[i] = byte(g >> (8 * uint(i)))
+	}
+	h.Write(b[:])
+	return h.Sum64()
+}
+
+// exploreUnbounded: depth-first search over ALL schedules with state pruning (DESIGN.md 5.4).
+// While no context switch has observed shared state different from the initial one, every
+// thread's local state is a function of its own step count, so (steps per thread) identifies the
+// state and a state seen before is not expanded again.  As soon as a switch observes a change,
+// nothing is pruned below it any more (the key would have to contain the history).
+func (e *explorer) exploreUnbounded(prefix []int, dirty bool) {
+	if e.stop {
+		return
+	}
+	if time.Now().After(e.deadline) {
+		e.res.Complete = false
+		e.stop = true
+		return
+	}
+	sched.OnSwitchFrom = len(prefix) - 1
+	sched.OnSwitch = func() uint64 { return sharedFingerprint(e.curEnv) }
+	x, results, obs := e.runOnce(prefix)
+	sched.OnSwitch = nil
+	e.check(x, results, obs, prefix)
+	if e.stop {
+		return
+	}
+	sw := 0
+	for i := len(prefix); i < len(x.Points); i++ {
+		for sw < len(x.SwitchAt) && x.SwitchAt[sw] < i {
+			if x.SwitchStates[sw] != e.fp0 {
+				dirty = true
+			}
+			sw++
+		}
+		p := x.Points[i]
+		if !dirty {
+			key := p.Steps
+			if e.visitedSteps[key] {
+				e.res.PrunedStates++
+				return // everything below was, or will be, explored from the first visit
+			}
+			e.visitedSteps[key] = true
+		} else {
+			e.res.DirtyPoints++
+		}
+		for alt := 1; alt < int(p.Enabled); alt++ {
+			e.exploreUnbounded(append(x.ChoiceList(i), alt), dirty)
+			if e.stop {
+				return
+			}
+		}
+	}
+}
+
+// explore: iterative context bounding DFS.
 func (e *explorer) explore(prefix []int) {
 	if e.stop {
 		return
@@ -355,10 +425,34 @@ func exploreScenario(sc scen.Scenario, maxBound int, pointLimit int, budget time
 			break
 		}
 	}
+	if unboundedLimit > 0 && res.MaxPoints <= unboundedLimit && len(res.Violations) == 0 && len(res.Infra) == 0 {
+		e = mk(-1)
+		e.deadline = time.Now().Add(unboundedBudget)
+		e.visitedSteps = map[[4]int32]bool{}
+		restoreGlobals()
+		env0, _ := sc.Setup()
+		e.fp0 = sharedFingerprint(env0)
+		before := res.Executions
+		res.Executions = 0
+		wasComplete := res.Complete
+		res.Complete = true
+		e.exploreUnbounded(nil, false)
+		res.Unbounded = res.Executions
+		res.UnboundedDone = res.Complete && !e.stop
+		res.UnboundedStates = int64(len(e.visitedSteps))
+		res.Executions += before
+		res.Complete = wasComplete
+	}
 	res.GlobalsChanged = globalsHash() != g0
 	res.Seconds = time.Since(t0).Seconds()
 	return res
 }
+
+// unbounded pass: only for scenarios whose executions have at most this many scheduling points
+var (
+	unboundedLimit  = 0
+	unboundedBudget = 10 * time.Minute
+)
 
 // ---------------------------------------------------------------------------------------------
 
@@ -388,6 +482,12 @@ func jobsFor(tier string) []job {
 
 func worker(tier string, i, n int) {
 	runtime.GOMAXPROCS(1)
+	if tier == "thorough" {
+		unboundedLimit = 260
+	} else {
+		unboundedLimit = 90
+		unboundedBudget = 40 * time.Second
+	}
 	w := bufio.NewWriter(os.Stdout)
 	defer w.Flush()
 	js := jobsFor(tier)
@@ -445,6 +545,7 @@ func parent(tier string) int {
 	perBound := map[string]int64{}
 	complete := true
 	multiOutcome, notPreemptedBoth, globalsChanged := 0, 0, 0
+	var unbSc, unbDone, unbExec, unbStates int64
 	slowest := ""
 	slowestS := 0.0
 	for _, res := range all {
@@ -462,6 +563,14 @@ func parent(tier string) int {
 		}
 		if !res.Complete {
 			complete = false
+		}
+		if res.Unbounded > 0 {
+			unbSc++
+			unbExec += res.Unbounded
+			unbStates += res.UnboundedStates
+			if res.UnboundedDone {
+				unbDone++
+			}
 		}
 		if res.Outcomes > 1 {
 			multiOutcome++
@@ -500,6 +609,7 @@ func parent(tier string) int {
 	if len(all) != want {
 		r.Infra(fmt.Sprintf("%d of %d scenarios reported", len(all), want))
 	}
+	execs += unbExec
 	r.Add("evaluations", execs)
 	r.Add("schedules", execs)
 	r.Add("states", execs)              // one terminal state per complete execution (stateless search)
@@ -509,6 +619,10 @@ func parent(tier string) int {
 		r.Set(k, v)
 	}
 	r.Set("scenarios", int64(len(all)))
+	r.Set("unbounded_pass_scenarios", unbSc)
+	r.Set("unbounded_pass_scenarios_completed", unbDone)
+	r.Set("unbounded_pass_schedules", unbExec)
+	r.Set("unbounded_pass_states", unbStates)
 	r.Set("max_scheduling_points_per_execution", maxPoints)
 	r.Set("scenarios_with_more_than_one_outcome", int64(multiOutcome))
 	r.Set("scenarios_where_not_every_thread_was_preempted_mid_operation", int64(notPreemptedBoth))
@@ -520,7 +634,7 @@ func parent(tier string) int {
 		s := all[len(all)/2]
 		r.Sample(map[string]any{"scenario": s.Scenario, "preemption_bound": s.Bound, "schedules": s.Executions, "max_points": s.MaxPoints, "distinct_outcomes": s.Outcomes})
 	}
-	r.Set("rule", "every schedule of every scenario up to the stated preemption bound (iterative context bounding; switches at a thread's end are free), executed on the real code instrumented with a scheduling point before every statement of the six library packages; scenarios: every unordered pair of the 14-operation catalogue incl. a||a, with a shared decoded receiver and with distinct receivers, plus 3-thread scenarios; oracle per execution: every operation's result equals the sequential result, shared objects' observables unchanged, the same operations repeated sequentially after the concurrent phase still give the sequential results, no panic, no deadlock; determinism obligations: the empty schedule twice gives identical traces, every replayed prefix offers the recorded choices")
+	r.Set("rule", "every schedule of every scenario up to the stated preemption bound (iterative context bounding; switches at a thread's end are free), plus for the scenarios with the shortest executions ALL schedules (no preemption bound) with state pruning on per-thread step counts while no context switch observes changed shared state, executed on the real code instrumented with a scheduling point before every statement of the six library packages; scenarios: every unordered pair of the 14-operation catalogue incl. a||a, with a shared decoded receiver and with distinct receivers, plus 3-thread scenarios; oracle per execution: every operation's result equals the sequential result, shared objects' observables unchanged, the same operations repeated sequentially after the concurrent phase still give the sequential results, no panic, no deadlock; determinism obligations: the empty schedule twice gives identical traces, every replayed prefix offers the recorded choices")
 	r.Assume("statement-level atomicity and sequentially consistent memory; code outside the six library packages (fmt, text/template, x/text, errs) runs atomically between two scheduling points; data races inside one statement are left to the separate free-running -race pass")
 	r.Assume("every package-level variable of the six library packages is reset to its value at process start before each execution (so lazily built tables and caches are cold in every execution); state inside other packages is not reset")
 	r.Assume("at most 3 goroutines; goroutines started by the library itself would not be controlled (the library starts none)")
